@@ -572,6 +572,14 @@ func (sc *serverConn) writeFrame(wm frameWriteMsg) bool {
 		return false
 	}
 
+	if st := wm.stream; st != nil && st.state == stateClosed {
+		// The stream was closed (reset or finished) before this write from
+		// its handler got here. Do not queue it: the scheduler would debit
+		// the stream and connection send windows for a DATA frame that
+		// startFrameWrite then skips. The handler is released by st.cw.
+		return true
+	}
+
 	sc.writeSched.add(wm)
 	sc.scheduleFrameWrite()
 	return true
